@@ -211,10 +211,17 @@ func (a *actor) run(p *Peer, nops int) {
 			}
 			w.Fault("peer.entity_remove")
 			removed := model.NetworkManagementStateChangeTypeRemoved
+			gone := []*PEnt{e}
+			if w.T.Bool(1, 3, "also-removes-an-unknown-entity") {
+				// the same notification also names an entity the node never heard of (a repeated
+				// removal, say), before the real one
+				gone = []*PEnt{{Peer: p, Addr: []uint{7}, Type: model.EntityTypeTypeEV}, e}
+				w.Probe("entity-removal-names-unknown-entity-first")
+			}
 			cmd := model.CmdType{
 				Function:                            util.Ptr(model.FunctionTypeNodeManagementDetailedDiscoveryData),
 				Filter:                              []model.FilterType{*model.NewFilterTypePartial()},
-				NodeManagementDetailedDiscoveryData: p.DiscoveryData([]*PEnt{e}, &removed, false),
+				NodeManagementDetailedDiscoveryData: p.DiscoveryData(gone, &removed, false),
 			}
 			ctr := p.SendCmd(p.NM().Address(), p.LocalNM(), model.CmdClassifierTypeNotify, nil, cmd, "entity-removed")
 			p.RemoveEntity([]uint{1, 1})
